@@ -348,7 +348,7 @@ func (g *resGen) fillPrimitive(m protoreflect.Message, depth int) {
 			vals := pf.Enum().Values()
 			// skip PRECISION_UNSPECIFIED (0) most of the time
 			k := 1 + g.r.n(vals.Len()-1)
-			if g.r.p(0.03) {
+			if g.r.p(0.08) {
 				k = 0
 			}
 			m.Set(pf, protoreflect.ValueOfEnum(vals.Get(k).Number()))
